@@ -16,7 +16,8 @@ EXPLANATION = (
     'one PRK / one salt are pairwise distinct, psk_id and info are hashed by separate extracts, and every element of '
     'key_schedule_context has a type-level fixed width ([u8; 1], Nh-byte digests), so moving bytes between adjacent '
     'fields cannot collide by framing. R07.3 the mode byte is a function of the mode variant alone and pairwise distinct for '
-    'the four modes (mode swaps with identical PSK data, empty versus absent). Not decided: that different inputs give different outputs (collision / '
+    'the four modes (mode swaps with identical PSK data, empty versus absent). R07.4 variable-length agreed inputs never '
+    'enter HKDF in the salt position (HMAC key zero-padding / pre-hashing is not injective: appended zero bytes). Not decided: that different inputs give different outputs (collision / '
     'pre-image resistance of HKDF) and hence "share no key material".')
 TRUSTED = ['HKDF/HMAC/SHA-2 are collision resistant PRFs', 'external calls depend on all of their arguments (conservative summary)']
 ASSUME = ['dependence through the trusted primitives is real (they do not ignore inputs)']
@@ -167,8 +168,53 @@ def check_mode_injective(rep, facts, rule='R07.3'):
     return n
 
 
+def check_injective_slots(rep, facts, rule='R07.4'):
+    """variable-length inputs enter HKDF only as message (ikm / info), never as salt: HMAC zero-pads / pre-hashes its key,
+    so `x` and `x || 0x00` (or a long x and Hash(x)) would collide"""
+    from ..tyutil import strip_ref
+    n = 0
+    for a, bi, t, c in bodies_calling(facts, path='kdf::labeled_extract'):
+        n += 1
+        salt = a.arg_val(bi, 0)
+        p = a.term_point(bi)
+        fixed = False
+        why = pp(salt)[:120]
+        if bytes_of(salt) is not None:
+            fixed = True
+            why = 'constant %r' % bytes_of(salt)
+        elif salt[0] == 'addr':
+            base, path = salt[1], salt[2]
+            ty = None
+            if base[0] == 'local':
+                ty = a.body.local_ty(base[1])
+            elif base[0] == 'pointee' and base[1][0] == 'param':
+                ty = strip_ref(a.body.local_ty(base[1][1]))
+            for e in path:
+                if ty is None:
+                    break
+                if e[0] == 'f':
+                    adt = facts.adts.get(ty.split('<', 1)[0])
+                    fl = [f['ty'] for f in adt['variants'][0]['fields'] if f['name'] == e[1]] if adt else []
+                    ty = fl[0] if fl else None
+                else:
+                    ty = None
+            if ty and (ty.startswith('generic_array::GenericArray<u8,') or ty.startswith('[u8;')):
+                fixed = True
+                why = 'fixed-size secret of type %s' % ty[:70]
+        elif salt[0] == 'param':
+            ty = a.body.local_ty(salt[1])
+            # the generic helper itself forwards its salt parameter: judged at its call sites
+            if a.body.key in ('kdf::labeled_extract',):
+                fixed = True
+        rep.check(fixed, rule, a.body.key, 'salt-is-fixed-length:%s' % (bytes_of(a.arg_val(bi, 2)) or b'?').decode('latin1'), why,
+                  'the HKDF salt is empty or a fixed-length secret; variable-length agreed inputs go in as ikm/info (injective framing)', where(a, p))
+    return n
+
+
 def run(ctx):
     rep, facts = ctx.rep, ctx.facts
+    n4 = check_injective_slots(rep, facts)
+    rep.floor('R07.4', 'labeled_extract call sites', n4, 3)
     n3 = check_mode_injective(rep, facts)
     rep.floor('R07.3', 'mode_id impls', n3, 2)
     check_key_schedule_deps(rep, facts)
